@@ -36,9 +36,9 @@ Definition NSMAX := 9000000000000000000.
 Lemma nanoseconds_ok n : - NSMAX <= n <= NSMAX ->
   exists t, ts_nanoseconds n = Some t /\ ns t = n /\ 0 <= ts_nsec t < NS /\ ts_sec t = n / NS.
 Proof.
-  unfold ts_nanoseconds, TS_MAX_SECONDS, i64_max, NS, NSMAX, ns. intros H.
-  replace ((- (9223372036854775807 / 1000000000 - 1) <=? n / 1000000000) &&
-           (n / 1000000000 <=? 9223372036854775807 / 1000000000 - 1)) with true by lia.
+  unfold ts_nanoseconds, NSMAX, ns. intros H.
+  change TS_MAX_SECONDS with 9223372035. unfold NS.
+  match goal with |- context [if ?c then _ else _] => destruct c eqn:E end; [|lia].
   eexists; split; [reflexivity|]. cbn [ts_sec ts_nsec]. lia.
 Qed.
 
